@@ -66,6 +66,16 @@ theorem gen_src_wake :
     src_wait = Skel.Pinned.wait :=
   ⟨rfl, rfl, rfl, rfl, rfl, rfl⟩
 
+/-- source text of the batch operations: template flags (WAIT / WAKE order) at the call sites of both ring segments, the
+stores-fence-wakeup tail -/
+theorem gen_src_batch_sites :
+    src_push_n = Skel.Pinned.push_n ∧
+    src_pop_n = Skel.Pinned.pop_n ∧
+    src_deal_n = Skel.Pinned.deal_n ∧
+    src_try_deal_n = Skel.Pinned.try_deal_n ∧
+    src_timed_pop_n = Skel.Pinned.timed_pop_n :=
+  ⟨rfl, rfl, rfl, rfl, rfl⟩
+
 /-! ### no lost wake-up at the futex level -/
 /-- **bq_sleep_sound.**  (S0) a thread hands to futex_wait only a word value with the waiter bit set;
 (S1) while a thread sleeps on a slot, that slot's waiter bit is still set — so the next releaser that
